@@ -10,7 +10,9 @@ import (
 	"fmt"
 	"hash"
 	"io"
+	"os"
 	"sync"
+	"syscall"
 
 	ikeCrypto "github.com/free5gc/ike/security/IKECrypto"
 )
@@ -63,8 +65,21 @@ type Faulty struct {
 	Src    io.Reader
 	FailAt int
 	Mode   int
+	Err    error // the error reported from read FailAt on (default ErrInjected); it persists: every later read fails too
 	n      int
 	Hit    bool
+}
+
+// FaultErrors: the kinds of error a random source can report; "temporary"-looking ones (EINTR, EAGAIN, timeouts) are
+// failures like any other as far as "an error instead of a key / ciphertext" goes.
+var FaultErrors = []error{ErrInjected, io.EOF, io.ErrUnexpectedEOF, io.ErrNoProgress, syscall.EINTR, syscall.EAGAIN, os.ErrDeadlineExceeded,
+	fmt.Errorf("read /dev/urandom: %w", syscall.EAGAIN), &os.PathError{Op: "read", Path: "/dev/urandom", Err: syscall.EINTR}}
+
+func (f *Faulty) err() error {
+	if f.Err != nil {
+		return f.Err
+	}
+	return ErrInjected
 }
 
 func (f *Faulty) Read(p []byte) (int, error) {
@@ -79,15 +94,15 @@ func (f *Faulty) Read(p []byte) (int, error) {
 		if i == f.FailAt && len(p) > 1 {
 			return f.Src.Read(p[:len(p)/2])
 		}
-		return 0, ErrInjected
+		return 0, f.err()
 	case 2:
 		if len(p) > 1 {
 			n, _ := f.Src.Read(p[:len(p)/2])
-			return n, ErrInjected
+			return n, f.err()
 		}
-		return 0, ErrInjected
+		return 0, f.err()
 	}
-	return 0, ErrInjected
+	return 0, f.err()
 }
 
 // WithRand runs f with crypto/rand.Reader replaced by src (sequential
